@@ -2031,10 +2031,18 @@ func (vc *VC) sourceOrdinals() {
 			}
 			c := ci.Common()
 			callee := c.StaticCallee()
-			if callee == nil {
+			k := ""
+			if b, isB := c.Value.(*ssa.Builtin); isB && b.Name() == "append" && len(c.Args) > 0 {
+				if an := appendAnchor(c.Args[0]); an != "" {
+					k = "append:" + an
+				}
+			}
+			if callee == nil && k == "" {
 				continue
 			}
-			k := funcKey(callee)
+			if k == "" {
+				k = funcKey(callee)
+			}
 			by[k] = append(by[k], c)
 			pos[c] = ins.Pos()
 		}
